@@ -2,6 +2,7 @@ package main
 
 import (
 	"fmt"
+	"strings"
 
 	"qmc/core"
 	"qmc/enum"
@@ -58,9 +59,15 @@ func reuseActivations(c *core.Ctx, withGrad bool) {
 	acts := []ref.Op{{K: "Relu"}, {K: "LeakyRelu", F: 0.3}, {K: "Sigmoid"}, {K: "TanhAct"}, {K: "Softmax", Dim: 0}}
 	evs := reuseEvents(len(shapes))
 	for _, act := range acts {
-		forEachReuseHistory(evs, depth, func(h []reuseEv, id string) {
+		run := func(h []reuseEv, id string) {
 			if !withGrad {
 				// values only: the bp flag is irrelevant, keep one representative
+				if strings.HasPrefix(id, "|long") {
+					h = append([]reuseEv{}, h...)
+					for i := range h {
+						h[i].bp = false
+					}
+				}
 				for _, e := range h {
 					if e.bp {
 						return
@@ -90,8 +97,33 @@ func reuseActivations(c *core.Ctx, withGrad bool) {
 				}
 				return core.Pass()
 			})
-		})
+		}
+		forEachReuseHistory(evs, depth, run)
+		for id, h := range longHistories(evs) {
+			run(h, "|"+id)
+		}
 	}
+}
+
+// longHistories: twelve calls on ONE object, alternating between two shapes
+// (and, separately, twelve calls with one shape): counters, caches keyed by the
+// previous call, "every n-th call" logic.
+func longHistories(evs []reuseEv) map[string][]reuseEv {
+	out := map[string][]reuseEv{}
+	for a := 0; a < 2; a++ {
+		for b := a; b < 3; b++ {
+			var h []reuseEv
+			for k := 0; k < 12; k++ {
+				s := a
+				if k%2 == 1 {
+					s = b
+				}
+				h = append(h, reuseEv{shape: s, tracked: k%3 != 2, bp: k%4 != 3})
+			}
+			out[fmt.Sprintf("long/s%d-s%d", a, b)] = h
+		}
+	}
+	return out
 }
 
 // forwardCase: run the program on model and real code, compare all values.
@@ -120,8 +152,14 @@ func reuseLosses(c *core.Ctx, withGrad bool) {
 	// event.tracked = targets tracked (the prediction is always tracked)
 	evs := reuseEvents(len(shapes))
 	for _, kind := range []string{"MSE", "BCE", "CE"} {
-		forEachReuseHistory(evs, depth, func(h []reuseEv, id string) {
+		run := func(h []reuseEv, id string) {
 			if !withGrad {
+				if strings.HasPrefix(id, "|long") {
+					h = append([]reuseEv{}, h...)
+					for i := range h {
+						h[i].bp = false
+					}
+				}
 				for _, e := range h {
 					if e.bp {
 						return
@@ -152,6 +190,10 @@ func reuseLosses(c *core.Ctx, withGrad bool) {
 				}
 				return core.Pass()
 			})
-		})
+		}
+		forEachReuseHistory(evs, depth, run)
+		for id, h := range longHistories(evs) {
+			run(h, "|"+id)
+		}
 	}
 }
